@@ -25,6 +25,7 @@ fn main() {
         Scenario::Reload(ReloadKind::RefusedMissing),
         Scenario::HostileReturn,
         Scenario::Control,
+        Scenario::StalledSubscriber,
     ];
     let pick: Vec<Scenario> = all.iter().copied().filter(|s| which == "all" || format!("{s:?}").to_lowercase().contains(&which.to_lowercase())).collect();
     let bin = live::vlive_path();
